@@ -20,6 +20,7 @@ EXPLANATION = (
     "loop, every block refreshed.  COST: Block.cost/Blocks.cost are the full sums and solve() returns the cost "
     "computed after the last satisfy().  No solver state outside the Solver/Blocks/Block objects (STATE).  Not "
     "decided: that the multiplier-driven search reaches the optimum; termination on cyclic inputs beyond CYCLE."
+    '  VPSC.ALLCS: Solver.__init__ keeps every constraint and variable it is given (no filter), registers each constraint with both ends unconditionally, resets cIn/cOut of every variable, and the inactive list is a private copy.  Blocks.split is decided on its value-numbered loop body: no block is passed over, both new blocks are inserted once, the split block (looked up before the split) is removed, the constraint is re-queued, and the multiplier bound is read from the path facts at the split call.  The merge loop is analysed after loop rotation (`while True: fetch; if not cond: break; ...` is the same loop).'
 )
 ASSUMPTIONS = ["positive weights and scales (property domain)"]
 
